@@ -842,7 +842,7 @@ impl CrumbWriter {
 fn worker_c11(tier: &str, seed: u64) -> ExitCode {
     let id = "C11";
     let thorough = tier == "thorough";
-    let runs = env_u64("VERIF_RUNS").unwrap_or(if thorough { 10_000 } else { 300 });
+    let runs = env_u64("VERIF_RUNS").unwrap_or(if thorough { 30_000 } else { 300 });
     let batch = Batch {
         runs,
         threads: threads(),
